@@ -594,6 +594,49 @@ def check_bad_step(run, name, earth, ep, d, step):
                        what="slant_depth answered with a number for a step that is zero / negative / NaN")
 
 
+def check_results_owned(run, key, ra, rb, ep, d, step):
+    """RETURNED ARRAYS BELONG TO THE CALLER: a density result kept alive must not be rewritten by a later density call
+    of the same shape or by a slant_depth whose chord has as many samples, on the same (possibly process-wide) object;
+    scribbling on a result must not change later answers.  1-d, 2-d and list inputs.  key: prem | cmc | module"""
+    import pyrex.earth_model as em
+    obj = {"prem": em.PREM(), "cmc": em.CoreMantleCrustModel(), "module": em.earth}[key]
+    name = "cmc" if key == "cmc" else "prem"
+    inp = {"model": name, "object": key, "radii_a": [float(x) for x in ra], "radii_b": [float(x) for x in rb],
+           "endpoint": list(ep), "direction": list(d), "step": step}
+    want_a = [ref_density(name, float(r)) for r in ra]
+    want_b = [ref_density(name, float(r)) for r in rb]
+    k2 = len(ra) // 2 * 2
+    forms = (("1-d array", np.array(ra, float), np.array(rb, float), want_a, want_b),
+             ("list", [float(x) for x in ra], [float(x) for x in rb], want_a, want_b),
+             ("2-d array", np.array(ra[:k2], float).reshape(2, -1), np.array(rb[:k2], float).reshape(2, -1), want_a[:k2], want_b[:k2]))
+    for form, a, b, wa, wb in forms:
+        d1, e1 = dens(obj, a)
+        if e1:
+            run.fail_input("results-owned", inp, observed=e1, what="density raised"); return
+        keep = np.array(d1, dtype=float, copy=True)
+        d2, e2 = dens(obj, b)                         # same shape, same object
+        T, e3 = slant(obj, ep, d, step)               # a chord with len(ra) samples
+        bad = None
+        if e2 or e3:
+            bad = "raised: %s" % (e2 or e3)
+        elif not np.array_equal(np.asarray(d1, float), keep):
+            bad = "a density result kept by the caller was rewritten by a later call (%s input)" % form
+        elif not fw.all_close(np.asarray(keep, float).ravel(), wa, 1e-12, 0.0) or not fw.all_close(np.asarray(d2, float).ravel(), wb, 1e-12, 0.0):
+            bad = "density values wrong (%s input)" % form
+        else:
+            try:
+                np.asarray(d2)[...] = -1.0            # the caller scribbles on its result
+            except (ValueError, TypeError):
+                pass
+            d3, e4 = dens(obj, b)
+            T2, e5 = slant(obj, ep, d, step)
+            if e4 or e5 or not fw.all_close(np.asarray(d3, float).ravel(), wb, 1e-12, 0.0) or T2 != T:
+                bad = "after the caller wrote into a returned array, later density / slant_depth answers changed (%s input)" % form
+        if bad:
+            run.fail_input("results-owned", inp, observed=bad, what=bad)
+            return
+
+
 def rotz(v, a):
     c, s = math.cos(a), math.sin(a)
     return [c * v[0] - s * v[1], s * v[0] + c * v[1], v[2]]
@@ -675,6 +718,20 @@ def search(run, deep):
         run.case(("oracle-state-reuse", len(hist), tuple(h[0] for h in hist)))
         run.count("state_reuse_calls", len(hist))
         check_state_reuse(run, hist)
+    # --- returned arrays belong to the caller
+    for rep in range(4 * mult):
+        key = rng.choice(["prem", "cmc", "module"])
+        R = REF["cmc" if key == "cmc" else "prem"]["R"]
+        ep = [rng.uniform(-2e4, 2e4), rng.uniform(-2e4, 2e4), -rng.uniform(1, 3000)]
+        th = math.radians(rng.uniform(1, 12)); ph = rng.uniform(0, 2 * math.pi)
+        d = [math.cos(th) * math.cos(ph), math.cos(th) * math.sin(ph), -math.sin(th)]
+        L = chord_length(R, ep, d) or 0.0
+        step = max(L / rng.randint(8, 60), 50.0)
+        n = max(n_nodes(L, step), 4)
+        ra = [rng.uniform(0, 1.02 * R) for _ in range(n)]
+        rb = [rng.uniform(0, 1.02 * R) for _ in range(n)]
+        run.case(("oracle-results-owned", key, n, tuple(ep)))
+        check_results_owned(run, key, ra, rb, ep, d, step)
     for name, earth in ms.items():
         check_density(run, name, earth, radii_cases(run, name, earth))
         run.case(("oracle-density", name))
@@ -749,6 +806,8 @@ def replay(run, data):
     k = data.get("kind")
     if k == "density":
         check_density(run, name, earth, [i["r"]])
+    elif k == "results-owned":
+        check_results_owned(run, i["object"], i["radii_a"], i["radii_b"], i["endpoint"], i["direction"], i["step"])
     elif k == "scale-range":
         check_scale_range(run, name, earth, i["endpoint"], i["direction"], i["step"], [i["k"]])
     elif k == "bad-step":
